@@ -248,6 +248,23 @@ def run(prog: Program) -> Results:
             res.add("R-C20-5", (k, "local may be read before assignment", n_), f.loc(x),
                     f"{k}: `{n_}` is read at line {x.lineno} on a path on which no assignment to it has run: that input raises "
                     f"UnboundLocalError (an internal error, not ValueError) out of parse/rebuild")
+    # ---------------------------------------------------------------- R-C20-6 resolved-program lints
+    from sa import lints
+    r6 = res.rule("R-C20-6", "no latent NameError / AttributeError / TypeError in the parse/rebuild closure: every name read is bound "
+                  "somewhere, every `self.x` read is defined by the class (or a base / subclass), every call of a package function, "
+                  "closure, constructor or own method fits the callee's signature", floor=150)
+    for k in sorted(closure):
+        f = prog.funcs[k]
+        if f.module.startswith(skip_mod) or f.name in ("__repr__",):
+            continue
+        r6.instances += 1
+        probs = [(x, "name is not bound anywhere", x.id, "NameError") for x in lints.undefined_names(prog, f)]
+        probs += [(x, "attribute is not defined by the class", x.attr, "AttributeError") for x in lints.unknown_self_attributes(prog, f)]
+        probs += [(c, why, norm(c.func)[:30], "TypeError") for c, why in lints.signature_mismatches(prog, f)]
+        r6.ob(not probs, None if not probs else {"site": k, "problems": [p_[1] for p_ in probs][:3]})
+        for node, why, what, exc in probs:
+            res.add("R-C20-6", (k, why.split(" [")[0][:60], what), f.loc(node),
+                    f"{k}: `{norm(node)[:60]}` — {why}: executing it raises {exc}, an internal error that parse/rebuild must not let out")
     res.tables.append(f"sa/rules/c20.py:REVIEWED_UNBOUND ({len(REVIEWED_UNBOUND)} infeasible paths)")
     res.tables.append(f"sa/rules/c20.py:REVIEWED_INDEX ({len(REVIEWED_INDEX)} grammar-shape entries)")
     res.tables.append(f"sa/rules/c20.py:REVIEWED_RAISES ({len(REVIEWED_RAISES)} entries)")
